@@ -1224,7 +1224,10 @@ def run(ctx):
 
 
 def replay(ctx, path):
-    r = json.load(open(path))
+    import replaylib
+    r = replaylib.load(ctx, path)
+    if "no_longer_checks" in r and "runs" not in r and "op" not in r:
+        return replaylib.obligations("C06", run, r, path)
     exe = build(ctx)
     if exe is None:
         print("cannot build")
@@ -1244,7 +1247,6 @@ def replay(ctx, path):
     for (c, a, s), t in zip(runs, res):
         print("%-40s %s %-24s %s" % (c[:40], a, s[:24], t))
     if differs:
-        print("VIOLATION property=C06 replay=%s" % path)
-        return 1
+        return replaylib.failed(ctx, "C06", r, path)
     print("replay passes (all runs agree)")
     return 0
